@@ -186,6 +186,11 @@ def ctrl_unwrap_proved(node, parents):
     return False
 
 
+PANIC_SOURCES = {"get", "get_mut", "first", "last", "find", "position", "rposition", "next", "pop", "parse", "try_into", "try_from", "from_str_radix",
+                 "from_u32", "from_utf8", "to_digit", "checked_add", "checked_sub", "checked_mul", "strip_prefix", "strip_suffix", "split_once", "nth",
+                 "max", "min", "decode", "lock", "remove", "binary_search", "to_str", "as_u64", "as_i64", "as_f64", "as_str", "as_array", "as_object"}
+
+
 def r_panic(ctx):
     rid = "C05.panic"
     ctx.rule(rid, "every unwrap/expect/panic!/unreachable!/todo!/unimplemented!/assert! site in non-test code of the cddl crate is "
@@ -219,15 +224,46 @@ def r_panic(ctx):
                 ctx.site(rid, key, file, n["l"], {"kind": kind, "proved": "ctrl-after-None-arm" if proved else ("reviewed" if key in reviewed else None)})
                 if proved or key in reviewed:
                     continue
-                ctx.violation(rid, key, file, n["l"], "%s in %s is not covered by a local proof or the reviewed table: a panic site reachable "
-                                                      "from a public entry point" % (what, fi.qual))
+                # the same reviewed expression elsewhere in this file: that code after a move
+                if any(k.split("|")[0] == file and k.split("|")[2] == what for k in reviewed):
+                    continue
+                fallible = kind in UNWRAPS and n["k"] == "mcall" and any(
+                    (x["k"] == "mcall" and x["m"] in PANIC_SOURCES) or (x["k"] == "call" and vf.src(x["f"]).split("::")[-1] in PANIC_SOURCES)
+                    for x in vf.walk(n["r"]))
+                if fallible or kind in ("panic!", "unreachable!", "todo!", "unimplemented!"):
+                    ctx.violation(rid, key, file, n["l"], "%s in %s is not covered by a local proof or the reviewed table and %s: a panic site "
+                                  "reachable from a public entry point" % (what, fi.qual, "unwraps the result of a lookup / conversion that can fail"
+                                                                           if fallible else "panics unconditionally when reached"))
+                else:
+                    ctx.incomplete_msg(rid, "%s: %s is not in the reviewed table; whether it can fire cannot be decided from the expression — review it and "
+                                            "add it to spec/c05_panic_reviewed.json" % (key, what))
+
+
+def _norm_site(what):
+    """expression text with receiver paths reduced to their last segment (a hoisted local or an extracted helper keeps it)"""
+    w = re.sub(r"\b(?:self|\w+)(?:\.\w+)*\.(\w+)(?=[\[.])", r"\1", what)
+    return re.sub(r"\s+", "", w)
+
+
+def _suspicious_index(what):
+    """why a new index site can be driven out of range, judged from its own text; None when that cannot be told"""
+    m = re.search(r"\[(.*)\]$", what)
+    inner = m.group(1) if m else ""
+    if what.endswith((".drain(..)", ".split_off(..)", ".split_at(..)", ".remove(..)", ".swap_remove(..)")):
+        return "an argument of a positional Vec/slice operation"
+    if ".." in inner and re.search(r"[A-Za-z_]", inner):
+        return "a range with computed bounds"
+    if re.search(r"[-+*]", inner) and re.search(r"[A-Za-z_]", inner):
+        return "computed by arithmetic"
+    return None
 
 
 def r_index(ctx):
     rid = "C05.index"
     ctx.rule(rid, "every index/slice expression `x[i]`, `&s[a..b]` and Vec::{remove,swap_remove,insert,split_off,drain} call in non-test code is in the "
-                  "frozen reviewed baseline spec/c05_index_baseline.json (count per function and indexed expression); a new "
-                  "panicking-index site is reported", floor=100)
+                  "frozen reviewed baseline spec/c05_index_baseline.json (count per function and indexed expression), or is that code after a move "
+                  "within its file; a new site whose position is computed (arithmetic, a range with computed bounds, a positional Vec "
+                  "operation) is reported, any other new site is left undecided (needs review)", floor=90)
     base = json.load(open(os.path.join(vf.VERIF, "spec", "c05_index_baseline.json")))["sites"]
     f = ctx.facts
     cur = {}
@@ -243,17 +279,40 @@ def r_index(ctx):
                 if n["k"] == "index":
                     what = "%s[%s]" % (vf.src(n["e"])[:50], vf.src(n["i"])[:50])
                 elif n["k"] == "mcall" and n["m"] in ("remove", "swap_remove", "insert", "split_off", "drain", "split_at", "copy_from_slice") \
-                        and not vf.src(n["r"]).startswith(("self.validated", "seen", "map")):
+                        and not vf.src(n["r"]).startswith(("self.validated", "seen", "map")) and vf.src(n["r"]) != "self":
                     what = "%s.%s(..)" % (vf.src(n["r"])[:50], n["m"])
                 if what:
                     k = "%s|%s|%s" % (file, fi.qual, what)
                     cur[k] = cur.get(k, 0) + 1
                     lines.setdefault(k, n["l"])
+    # reviewed sites that are no longer where they were: an equal expression that shows up elsewhere in the same file is the same
+    # code after a move (extracted helper, hoisted local); those are accepted
+    spare = {}
+    for k, c in base.items():
+        if cur.get(k, 0) < c:
+            file, _, what = k.split("|", 2)
+            spare[(file, _norm_site(what))] = spare.get((file, _norm_site(what)), 0) + c - cur.get(k, 0)
     for k, c in sorted(cur.items()):
         ctx.site(rid, k, k.split("|")[0], lines[k], {"count": c, "baseline": base.get(k, 0)})
-        if c > base.get(k, 0):
-            ctx.violation(rid, k, k.split("|")[0], lines[k], "index/slice site not in the reviewed baseline (%d now, %d reviewed): can panic on "
-                                                            "out-of-range or non-char-boundary positions" % (c, base.get(k, 0)))
+        extra = c - base.get(k, 0)
+        if extra <= 0:
+            continue
+        file, fn, what = k.split("|", 2)
+        nk = (file, _norm_site(what))
+        moved = min(extra, spare.get(nk, 0))
+        if moved:
+            spare[nk] -= moved
+            extra -= moved
+        if extra <= 0:
+            continue
+        # a genuinely new site: decide what can be decided from its shape
+        sus = _suspicious_index(what)
+        if sus:
+            ctx.violation(rid, k, file, lines[k], "new index/slice site whose position is %s (%d now, %d reviewed): it panics when the position is out of "
+                          "range or not on a character boundary" % (sus, c, base.get(k, 0)))
+        else:
+            ctx.incomplete_msg(rid, "%s: index/slice site not in the reviewed baseline; its bound cannot be decided from the expression — review it and "
+                                    "add it to spec/c05_index_baseline.json" % k)
 
 
 RENDER_MACROS = {"write", "writeln", "format", "print", "println"}
@@ -532,6 +591,7 @@ def r_alloc(ctx):
         ctx.violation(rid, "%s|%s" % (fn, what), c11.F, line, "%s in %s is sized by the length announced in the CBOR head" % (what, fn))
     # any other caller-sized allocation in the crate must be in the reviewed list
     reviewed = json.load(open(os.path.join(vf.VERIF, "spec", "c05_alloc_reviewed.json")))["sites"]
+    reviewed_findings = json.load(open(os.path.join(vf.VERIF, "spec", "c05_alloc_reviewed.json"))).get("findings", {})
     for file in sorted(f.files):
         if not file.startswith("src/"):
             continue
@@ -550,7 +610,20 @@ def r_alloc(ctx):
                     key = "%s|%s|%s" % (file, fi2.qual, what)
                     ctx.site(rid, key, file, x["l"], {"alloc": what, "reviewed": key in reviewed})
                     if key not in reviewed:
-                        ctx.violation(rid, key, file, x["l"], "caller-sized allocation %s is not in the reviewed table" % what)
+                        # the same allocation expression reviewed elsewhere in this file is that code after a move
+                        moved = any(k.split("|")[0] == file and k.split("|", 2)[2] == what for k in reviewed)
+                        vs = arith_value_sources_cache(f)
+                        tainted = any(k.startswith("%s|%s|" % (file, fi2.qual)) for k in vs) and any(nm in what for nm in vs_names(vs, file, fi2.qual))
+                        if moved:
+                            continue
+                        if key in reviewed_findings:
+                            ctx.violation(rid, key, file, x["l"], "caller-sized allocation %s: %s" % (what, reviewed_findings[key]))
+                            continue
+                        if tainted:
+                            ctx.violation(rid, key, file, x["l"], "caller-sized allocation %s takes its size from a document or schema number" % what)
+                        else:
+                            ctx.incomplete_msg(rid, "%s: caller-sized allocation not in the reviewed table; whether its size is bounded cannot be decided "
+                                                    "from the expression — review it and add it to spec/c05_alloc_reviewed.json" % key)
 
 
 def r_progress(ctx):
@@ -575,6 +648,9 @@ def r_progress(ctx):
 ARITH_OPS = ("+", "-", "*", "<<", "+=", "-=", "*=", "<<=")
 
 
+ARITH_TOP = {}
+
+
 def arith_sites(f):
     out = {}
     where = {}
@@ -589,6 +665,7 @@ def arith_sites(f):
                     key = "%s|%s|%s" % (file, fi.qual, vf.src(x)[:90])
                     out[key] = out.get(key, 0) + 1
                     where.setdefault(key, (file, x["l"]))
+                    ARITH_TOP[key] = (x["op"], vf.src(x["b"]))
     return out, where
 
 
@@ -640,6 +717,25 @@ def arith_value_sources(f):
     return out
 
 
+_AVS = {}
+
+
+def arith_value_sources_cache(f):
+    if id(f) not in _AVS:
+        _AVS[id(f)] = arith_value_sources(f)
+    return _AVS[id(f)]
+
+
+def vs_names(vs, file, qual):
+    out = set()
+    for k, v in vs.items():
+        if k.startswith("%s|%s|" % (file, qual)):
+            m = re.match(r"`(\w+)`", v)
+            if m:
+                out.add(m.group(1))
+    return out
+
+
 def r_arith(ctx):
     rid = "C05.arith"
     ctx.rule(rid, "every integer/float arithmetic expression (+ - * << and their assigning forms) in non-test code of the cddl crate is in the "
@@ -663,10 +759,20 @@ def r_arith(ctx):
             if src:
                 ctx.violation(rid, key, file, line, "unreviewed arithmetic on a number that comes from the document or the schema (%s): it must be "
                               "checked_*, saturating_* or widened — plain operators panic in overflow-checked builds and wrap otherwise" % src)
-            elif re.search(r"(?<![<>=!+*/-])-(?!>)", key.split("|", 2)[2]):
+            elif ARITH_TOP.get(key, ("", ""))[0] in ("-", "-="):
                 # an unreviewed subtraction: lengths and counters are unsigned, `a - b` panics (or wraps) when b > a
-                ctx.violation(rid, key, file, line, "unreviewed subtraction on lengths / counters: unsigned `a - b` underflows when b > a; it needs "
-                              "saturating_sub / checked_sub or a review entry naming the guard that makes it safe")
+                expr = key.split("|", 2)[2]
+                rhs = ARITH_TOP[key][1]
+                moved = any(k.split("|")[0] == file and _norm_site(k.split("|", 2)[2]) == _norm_site(expr) and sites.get(k, 0) < rv["sites"][k].get("count", 1)
+                            for k in rv["sites"])
+                if moved:
+                    ctx.site(rid, key + "|moved", file, line, {"note": "the reviewed expression, moved within its file"})
+                elif not re.fullmatch(r"\(?\s*(0[xX][0-9A-Fa-f_]+|0[bB][01_]+|[0-9_]+|[A-Z][A-Z_0-9]*)(?:[iu](?:8|16|32|64|128|size))?\s*\)?", rhs.strip()):
+                    ctx.violation(rid, key, file, line, "unreviewed subtraction of two run-time quantities: unsigned `a - b` underflows when b > a; it needs "
+                                  "saturating_sub / checked_sub or a review entry naming the guard that makes it safe")
+                else:
+                    ctx.incomplete_msg(rid, "%s: unreviewed subtraction of a constant; whether the left operand is always at least that large cannot be "
+                                            "decided from the expression — review it and add it to spec/c05_arith_reviewed.json" % key)
             else:
                 ctx.site(rid, key + "|auto-structural", file, line, {"note": "not in the reviewed table; operands are lengths, counters or positions"})
         elif n > ent.get("count", 1) and (key in value_sources or ent["class"] != "structural"):
